@@ -279,25 +279,7 @@ func ruleC07(c *Ctx) {
 	}
 
 	// --- R4b: the EncryptedKey handed to DecryptSymmetricKey is one of the two decoded structs, whole
-	db := c.kernel("types.(*EncryptedAssertion).DecryptBytes")
-	if db != nil {
-		fname := shortFn(db.Root)
-		n := 0
-		for _, t := range db.Terms {
-			for _, e := range t.calls("(*types.EncryptedKey).DecryptSymmetricKey") {
-				n++
-				a := t.atoms()
-				recv := ap(e.Args[0])
-				inline := recv == "&EA.EncryptedKey" && a[`!(EA.EncryptedKey.CipherValue == "")`]
-				detached := recv == "&EA.DetEncryptedKey" && a[`EA.EncryptedKey.CipherValue == ""`]
-				c.check(inline || detached, "C07-R4/key-struct", fname, "EncryptedKey given to DecryptSymmetricKey", c.P.InstrPos(e.Instr), recv,
-					"DecryptSymmetricKey runs on "+recv+": not the inline EncryptedKey (when it has a CipherValue) nor the detached one as decoded — the recipient-certificate field checked may not belong to the key material used")
-				c.check(ap(e.Args[1]) == "CERT", "C07-R4/key-struct", fname, "certificate given to DecryptSymmetricKey", c.P.InstrPos(e.Instr), "caller's certificate", "key unwrap uses "+ap(e.Args[1]))
-			}
-		}
-		c.count("C07-R4/key-struct", n)
-		c.floor("C07-R4/key-struct", 2)
-	}
+	keyStructRule(c, "C07-R4/key-struct")
 
 	// --- R5 getDecryptCert
 	gc := c.kernel("(*SAMLServiceProvider).getDecryptCert")
@@ -376,8 +358,33 @@ func ruleC07(c *Ctx) {
 				c.bad("C07-R5", fname, "window bound "+bnd, "-", "clock compared with an unexpected certificate field")
 			}
 		}
-		c.count("C07-R5/window-bounds", len(parsedAPs))
-		c.floor("C07-R5/window-bounds", 2)
+		nNB, nNA := 0, 0
+		for b := range parsedAPs {
+			if strings.HasSuffix(b, ".NotBefore") {
+				nNB++
+			}
+			if strings.HasSuffix(b, ".NotAfter") {
+				nNA++
+			}
+		}
+		c.count("C07-R5/window-lower-bounds", nNB)
+		c.floor("C07-R5/window-lower-bounds", 1)
+		c.count("C07-R5/window-upper-bounds", nNA)
+		c.floor("C07-R5/window-upper-bounds", 1)
+		// every validating accept must have compared against both bounds of the certificate it returns
+		for _, t := range on {
+			if !t.accepting(gc.Root) {
+				continue
+			}
+			nb, na := false, false
+			for _, tc := range timeFacts(t) {
+				for _, s := range []string{tc.a, tc.b} {
+					nb = nb || strings.HasSuffix(s, ".NotBefore")
+					na = na || strings.HasSuffix(s, ".NotAfter")
+				}
+			}
+			c.check(nb && na, "C07-R5", fname, "accept compares the clock with NotBefore and NotAfter", c.P.InstrPos(t.Instr), "both bounds", fmt.Sprintf("a validating accept checks NotBefore=%v NotAfter=%v", nb, na))
+		}
 	}
 
 	// --- R6 who-may-call
@@ -629,6 +636,38 @@ func renderBase(v ssa.Value) string {
 		}
 	}
 	return v.Name()
+}
+
+// keyStructRule: DecryptSymmetricKey runs on &ea.EncryptedKey when it has a CipherValue, else on &ea.DetEncryptedKey.
+func keyStructRule(c *Ctx, rule string) {
+	db := c.kernel("types.(*EncryptedAssertion).DecryptBytes")
+	if db == nil {
+		return
+	}
+	fname := shortFn(db.Root)
+	n := 0
+	kinds := map[string]bool{}
+	for _, t := range db.Terms {
+		for _, e := range t.calls("(*types.EncryptedKey).DecryptSymmetricKey") {
+			n++
+			a := t.atoms()
+			recv := ap(e.Args[0])
+			inline := recv == "&EA.EncryptedKey" && a[`!(EA.EncryptedKey.CipherValue == "")`]
+			detached := recv == "&EA.DetEncryptedKey" && a[`EA.EncryptedKey.CipherValue == ""`]
+			if inline {
+				kinds["inline"] = true
+			}
+			if detached {
+				kinds["detached"] = true
+			}
+			c.check(inline || detached, rule, fname, "EncryptedKey given to DecryptSymmetricKey", c.P.InstrPos(e.Instr), recv,
+				"DecryptSymmetricKey runs on "+recv+": not the inline EncryptedKey (when it has a CipherValue) nor the detached one as decoded — the recipient-certificate field checked may not belong to the key material used, or the detached form is not honoured")
+			c.check(ap(e.Args[1]) == "CERT", rule, fname, "certificate given to DecryptSymmetricKey", c.P.InstrPos(e.Instr), "caller's certificate", "key unwrap uses "+ap(e.Args[1]))
+		}
+	}
+	c.check(kinds["inline"] && kinds["detached"], rule, fname, "both EncryptedKey placements are supported", c.P.Pos(db.Root.Pos()), "inline and detached", fmt.Sprintf("supported placements: %v (want inline and detached)", sortedStrings(kinds)))
+	c.count(rule, n)
+	c.floor(rule, 2)
 }
 
 // leafOfReturned: access path of Certificate[0] of the tls.Certificate pointed to by cert at the end of the path.
